@@ -518,7 +518,7 @@ class TimeDependentConnections:
         headings, times, tdc.tvec = _parse_ts_header(tables[2][0], known_headings, skip_first=False)
 
         # Validate and process headings
-        if not times and "constant" not in headings:
+        if not times and "constant" not in headings and "assumption" not in headings:
             raise Exception("Could not find an assumption or time-specific value - all tables must contain at least one of these values")
         tdc.write_units = True if "units" in headings else None
         tdc.write_uncertainty = True if "uncertainty" in headings else None
@@ -954,7 +954,7 @@ class TimeDependentValuesEntry:
         headings, times, tdve.tvec = _parse_ts_header(rows[0], known_headings, skip_first=True)
 
         # Validate and process headings
-        if not times and "constant" not in headings:
+        if not times and "constant" not in headings and "assumption" not in headings:
             raise Exception("Could not find an assumption or time-specific value - all tables must contain at least one of these values")
         tdve.write_units = True if "units" in headings else None
         tdve.write_uncertainty = True if "uncertainty" in headings else None
